@@ -100,7 +100,7 @@ def run(pid, spec, tier, seed, wd, only, rebase, t_start):
     for js in spec['jobs']:
         tiers = js.get('tiers', ('quick', 'thorough'))
         if tier not in tiers: continue
-        if only and only not in js['name']: continue
+        if only and not any(o in js['name'] for o in only.split('|')): continue
         jobs.append(js)
     if seed:
         import random
